@@ -155,6 +155,11 @@ def arrRun {α : Type} (d : α) : List (ArrOp α) → ArrSt α → ArrSt α
 
 def arrInit {α : Type} : ArrSt α := fun _ => ArrayM.empty
 
+/-- What the program hands back to its caller, step by step. -/
+def arrOuts {α : Type} (d : α) : List (ArrOp α) → ArrSt α → List (Option (List α))
+  | [], _ => []
+  | op :: ops, st => (op.step d st).2 :: arrOuts d ops (op.step d st).1
+
 /-! ### The plain-sequence specification of the same programs (no capacity, no storage) -/
 
 abbrev ArrAbs (α : Type) := Nat → List α
@@ -182,6 +187,10 @@ def ArrOp.spec {α : Type} (d : α) (op : ArrOp α) (st : ArrAbs α) : ArrAbs α
 def arrSpecRun {α : Type} (d : α) : List (ArrOp α) → ArrAbs α → ArrAbs α
   | [], st => st
   | op :: ops, st => arrSpecRun d ops (op.spec d st).1
+
+def arrSpecOuts {α : Type} (d : α) : List (ArrOp α) → ArrAbs α → List (Option (List α))
+  | [], _ => []
+  | op :: ops, st => (op.spec d st).2 :: arrSpecOuts d ops (op.spec d st).1
 
 /-! ## String comparison primitives (StringUtils.hpp:111-162) on lists (suffix recursion; the cursor
 versions are C15's subject) -/
@@ -346,6 +355,10 @@ def strRun : List StrOp → StrSt → StrSt
 
 def strInit : StrSt := fun _ => StringM.empty
 
+def strOuts : List StrOp → StrSt → List Out
+  | [], _ => []
+  | op :: ops, st => (op.step st).2 :: strOuts ops (op.step st).1
+
 /-- Plain-sequence specification for strings and streams and views: a register holds a unit list. -/
 abbrev SeqAbs := Nat → List Nat
 
@@ -378,6 +391,10 @@ def StrOp.spec (op : StrOp) (st : SeqAbs) : SeqAbs × Out :=
 def strSpecRun : List StrOp → SeqAbs → SeqAbs
   | [], st => st
   | op :: ops, st => strSpecRun ops (op.spec st).1
+
+def strSpecOuts : List StrOp → SeqAbs → List Out
+  | [], _ => []
+  | op :: ops, st => (op.spec st).2 :: strSpecOuts ops (op.spec st).1
 
 /-! ## StringStream (StringStream.hpp) -/
 
@@ -525,6 +542,10 @@ def ssRun (P : Policy) : List SsOp → SsSt → SsSt
 
 def ssInit : SsSt := fun _ => StreamM.empty
 
+def ssOuts (P : Policy) : List SsOp → SsSt → List Out
+  | [], _ => []
+  | op :: ops, st => (op.step P st).2 :: ssOuts P ops (op.step P st).1
+
 def SsOp.spec (op : SsOp) (st : SeqAbs) : SeqAbs × Out :=
   match op with
   | .ctorN r _ => (setR st r [], .none)
@@ -556,6 +577,10 @@ def SsOp.spec (op : SsOp) (st : SeqAbs) : SeqAbs × Out :=
 def ssSpecRun : List SsOp → SeqAbs → SeqAbs
   | [], st => st
   | op :: ops, st => ssSpecRun ops (op.spec st).1
+
+def ssSpecOuts : List SsOp → SeqAbs → List Out
+  | [], _ => []
+  | op :: ops, st => (op.spec st).2 :: ssSpecOuts ops (op.spec st).1
 
 /-! ## StringView (StringView.hpp): a pointer into somebody else's buffer and a length -/
 
@@ -607,6 +632,10 @@ def svRun : List SvOp → SvSt → SvSt
 
 def svInit : SvSt := fun _ => ViewM.empty
 
+def svOuts : List SvOp → SvSt → List Out
+  | [], _ => []
+  | op :: ops, st => (op.step st).2 :: svOuts ops (op.step st).1
+
 def SvOp.spec (op : SvOp) (st : SeqAbs) : SeqAbs × Out :=
   match op with
   | .ctorP r b n => (setR st r (b.take n), .none)
@@ -623,5 +652,9 @@ def SvOp.spec (op : SvOp) (st : SeqAbs) : SeqAbs × Out :=
 def svSpecRun : List SvOp → SeqAbs → SeqAbs
   | [], st => st
   | op :: ops, st => svSpecRun ops (op.spec st).1
+
+def svSpecOuts : List SvOp → SeqAbs → List Out
+  | [], _ => []
+  | op :: ops, st => (op.spec st).2 :: svSpecOuts ops (op.spec st).1
 
 end Qentem.Seq
